@@ -157,11 +157,16 @@ def summarize_op(f):
         return None, ["return value is not a single vector: %s" % [show(x, f) for x in rets]], atoms
     ret0 = rets.pop()
     rl = ret_locals.pop()
-    in_place = ret0 == ("param", 2)
-    fresh = ret0[0] == "call" and ret0[1] == "std::vec::Vec::new"
+    in_place = ret0 == ("param", 2) or rl == 2
+    inits = set()
+    for p in s.paths():
+        for e in p.events:
+            if e[0] == "init" and e[1] == rl:
+                inits.add(e[3])
+    fresh = (not in_place) and inits == {("call", "std::vec::Vec::new", ())}
     if not in_place and not fresh:
         # anything else (iterator chains, collect) is not one of the two idioms of this code base
-        return None, ["result is neither the input vector nor a fresh Vec::new(): %s" % show(ret0, f)], atoms
+        return None, ["result is neither the input vector nor a fresh Vec::new(): %s" % sorted(show(x, f) for x in (inits or {ret0}))], atoms
     ret_forms = {ret0, ("local", rl), ("param", rl)}
 
     def effects(path, item_local=None):
